@@ -25,8 +25,9 @@ class Climatology(Job):
     prop = "C08"
     max_paths = 3000
 
-    def __init__(self, n, members, as_object=False, canary=None, prop="C08"):
+    def __init__(self, n, members, as_object=False, canary=None, prop="C08", frac=False):
         self.n, self.members, self.as_object, self.canary = n, members, as_object, canary
+        self.frac = frac
         self.prop = prop
         self.name = (f"climatology n={n} members=[{','.join(m.label() for m in members)}] cfg={'object' if as_object else 'dicts'}"
                      + (f" CANARY={canary}" if canary else ""))
@@ -56,7 +57,7 @@ class Climatology(Job):
         S = Struct()
         S.x = V.floats("x", self.n, nan=True, lo=-4096, hi=4096)
         S.z = V.floats("z", self.n, nan=True, lo=-4096, hi=4096)
-        S.t = [V.time(f"t{i}") for i in range(self.n)]
+        S.t = [V.time(f"t{i}", frac=self.frac) for i in range(self.n)]
         S.m = []
         for k, ms in enumerate(self.members):
             M = Struct()
@@ -97,15 +98,23 @@ class Climatology(Job):
         any_depth = mk_or(*[mk_not(zz.nan) for zz in S.z]) if S.z else FALSE
         exp = iv(UNKNOWN)
         for ms, M in zip(self.members, S.m):
-            if ms.period is None:
+            if ms.period is None and self.frac:
+                a, b = M.tspan
+                lo_t = (a <= b).b
+                applies_t = mk_if(lo_t, mk_and((t >= a).b, (t <= b).b), mk_and((t >= b).b, (t <= a).b))
+                tv = tlo = thi = None
+            elif ms.period is None:
                 tv = t.s
                 tlo, thi = M.tspan[0].s, M.tspan[1].s
             else:
                 tv = cal.attr(CAL_NAME.get(ms.period, ms.period), t.s)
                 tlo, thi = M.tspan[0].v, M.tspan[1].v
-            lo = mk_if(tlo <= thi, tlo, thi)
-            hi = mk_if(tlo <= thi, thi, tlo)
-            applies = mk_and(tv >= lo, (tv < hi) if self.canary == "tspan_open" else (tv <= hi))
+            if tv is None:
+                applies = applies_t
+            else:
+                lo = mk_if(tlo <= thi, tlo, thi)
+                hi = mk_if(tlo <= thi, thi, tlo)
+                applies = mk_and(tv >= lo, (tv < hi) if self.canary == "tspan_open" else (tv <= hi))
             if M.zspan is not None:
                 zlo = mk_if(M.zspan[0].v <= M.zspan[1].v, M.zspan[0].v, M.zspan[1].v)
                 zhi = mk_if(M.zspan[0].v <= M.zspan[1].v, M.zspan[1].v, M.zspan[0].v)
@@ -167,6 +176,8 @@ def jobs(tier):
     if tier == "thorough":
         out.append(Climatology(2, [M(None, True, True), M("month", True, True), M("week", False, False)]))
         out.append(Climatology(2, [M("year", True, False), M("dayofweek", False, True), M(None, True, True)]))
+    out.append(Climatology(2, [M(None, True, True)], frac=True))
+    out.append(Climatology(1, [M("dayofyear", True, False), M(None, False, False)], frac=True))
     out.append(Climatology(1, [M("month", True, False)], canary="tspan_open"))
     return out
 
